@@ -21,6 +21,7 @@ from twisted.internet.interfaces import IStreamClientEndpoint
 from .. import audit, gen, wire
 from ..faketor import core, sockstor
 from ..refs import kvline
+from ..refs import reply as R
 
 PROPERTY = "C18"
 READY = True
@@ -63,6 +64,10 @@ ASSUMPTIONS = [
     "must not be a ConnectError / an error of another attempt (and must carry the reply code if it has a code)",
     "Tor-object histories: the loaded TorConfig's view is made to differ from Tor only in ways that leave Tor's own "
     "configuration untouched (rejected save, rejected save still in flight, unsaved in-place edit)",
+    "overlapping calls (burst: none awaited; hold: FakeTor keeps SETCONF replies back until all calls were made) are "
+    "judged at quiescence: each SETCONF against what Tor had when it processed it, endpoints against Tor's final "
+    "configuration; a SETCONF that re-lists exactly what Tor has is accepted as a no-op; calls that fail although no "
+    "existing entry could serve them are counted only",
     "an API Deferred still pending at quiescence is counted (unresolved), not judged",
 ]
 TRUSTED_BASE = ["vf.faketor.core.FakeTor + vf.faketor.sockstor.SocksStore (SocksPort family, 513 on malformed lines)",
@@ -83,6 +88,7 @@ FLOORS = {
               "endpoint_targets_compared": 500, "fallback_sequences_judged": 35,
               "fallback_attempts_checked": 60, "fallback_outcomes_compared": 30,
               "fallback_socks_failures_compared": 80, "reach:txtorcon.controller:Tor._default_socks_endpoint": 400,
+              "overlap_histories_judged": 200, "overlap_setconfs_judged": 250,
               "reach:txtorcon.endpoints:_create_socks_endpoint": 400,
               "reach:txtorcon.endpoints:TorClientEndpoint.connect": 90,
               "reach:txtorcon.torconfig:TorConfig.create_socks_endpoint": 150,
@@ -90,7 +96,7 @@ FLOORS = {
     "thorough": {"evaluations": 20000, "use_existing_checked": 6000, "add_checked": 4000, "setconf_decoded": 3000,
                  "endpoint_targets_compared": 10000, "fallback_sequences_judged": 250,
                  "fallback_attempts_checked": 450, "fallback_outcomes_compared": 200,
-                 "fallback_socks_failures_compared": 800,
+                 "fallback_socks_failures_compared": 800, "overlap_histories_judged": 20000,
                  "reach:txtorcon.endpoints:_create_socks_endpoint": 8000,
                  "reach:txtorcon.endpoints:TorClientEndpoint.connect": 1500},
 }
@@ -605,6 +611,227 @@ def judge_step(case, step, nstep, rec, V):
     return judged
 
 
+# ---------------------------------------------------------------------------
+# workload A: overlapping calls (a second/third call made before Tor answered the first)
+
+def run_overlap(case, rec, V):
+    """2-3 calls on the same connection, none awaited before the next is made.
+
+    schedule 'burst': all calls are made, then bytes move (the protocol serialises the
+    commands); schedule 'hold': bytes move after every call but FakeTor keeps each SETCONF
+    reply back until all calls were made, then answers them in order.  Judged at
+    quiescence:
+      * every SETCONF Tor processed re-lists what Tor had AT THAT MOMENT (port-0 entries
+        may be dropped) plus exactly one new entry that some call asked for (or, for calls
+        without a port, a usable one); a SETCONF that re-lists exactly what Tor has is a
+        no-op and accepted;
+      * every endpoint handed out leads to a listener in Tor's FINAL configuration (and to
+        the requested port when one was requested);
+      * no SETCONF at all when every call could be served by an entry Tor already had;
+      * a call that could be served by an existing entry must not fail."""
+    import txtorcon
+    from txtorcon import endpoints as tep
+    from txtorcon import controller as tctl
+    _reset_singletons()
+    calls = case["calls"]
+    tor = sockstor.make_tor(case.get("socks"), case.get("under"))
+    tor.emit_conf_changed = bool(case.get("conf_changed"))
+    proto, tor, link = core.connected_protocol(tor)
+    reactor = sockstor.FakeReactor(free_ports=list(case.get("free", [45011, 45012, 45013])))
+    aud = audit.Auditor(wire.LClock())
+    cfg = None
+    if any(c["api"] == "cfg_create" for c in calls) or case.get("with_cfg"):
+        o = aud.watch(txtorcon.TorConfig.from_protocol(proto), "boot")
+        _settle(link, reactor)
+        if not (o.fired and o.ok):
+            rec.count("torconfig_bootstrap_failed")
+            return False
+        cfg = o.value
+    torobj = tctl.Tor(reactor, proto, _tor_config=cfg)
+    E0 = tor.conf.socks_entries()
+    infos0 = [entry_info(l) for l in E0]
+    others0 = tor.conf.snapshot_others()
+    amark = len(tor.conf.apply_log)
+    held = []
+    if case["schedule"] == "hold":
+        def hold(rest):
+            held.append(rest)
+            return None
+        tor.handlers["SETCONF"] = hold
+    outs = []
+    for c in calls:
+        req, api = c["req"], c["api"]
+        a0 = len(reactor.attempts)
+        if api == "cfg_create":
+            res = _call(cfg.create_socks_endpoint, reactor, req)
+        elif api == "direct":
+            res = _call(tep._create_socks_endpoint, reactor, proto, socks_config=req)
+        elif api == "default":
+            res = _call(torobj._default_socks_endpoint)
+        elif api == "stream_via":
+            res = _call(lambda: torobj.stream_via("example.com", 443).connect(_ProbeFactory()))
+        elif api == "dns_resolve":
+            res = _call(torobj.dns_resolve, "example.com")
+        else:
+            raise ValueError(api)
+        outs.append({"call": c, "res": res, "o": aud.watch(res[1], api) if res[0] == "returned" else None})
+        if case["schedule"] == "hold":
+            _settle(link, reactor)
+    _settle(link, reactor)
+    guard = 0
+    while held and guard < 20:
+        guard += 1
+        rest = held.pop(0)
+        code, parts = tor.cmd_SETCONF(rest)
+        tor.replies.append(("SETCONF " + rest, code, parts))
+        tor.outbox += R.encode(code, parts)
+        _settle(link, reactor)
+    # attempts made by the calls that connect by themselves
+    self_attempts = list(reactor.attempts)
+    del reactor.open[:]
+    E_final = tor.conf.socks_entries()
+    final = [entry_info(l) for l in E_final]
+    listeners = [attempt_of(i["target"]) for i in final if i["kind"] in ("usable", "optional")]
+    unset0 = not infos0
+    if unset0:
+        # SocksPort was unset: Tor's built-in 9050 was a legitimate choice when it was made; whether a later
+        # SETCONF has to re-list that implicit default is a leniency (see ASSUMPTIONS), so it stays acceptable
+        listeners.append(("tcp", "127.0.0.1", 9050))
+    fams = sorted(set("torconfig" if c["api"] == "cfg_create" else "direct" for c in calls))
+    shape = "%s:%s" % (case["schedule"], "+".join(
+        (c["api"] + "/" + classify_request(c["req"], infos0)[0]) for c in calls))
+    # class = which code paths overlapped (the exact shape goes into the evidence / detail)
+    cls = "overlapping-calls/" + "+".join(fams) + ("/conf-changed" if case.get("conf_changed") and cfg is not None else "")
+    if fams == ["torconfig"] and len(infos0) == 1 and infos0[0]["target"] == ("auto",):
+        cls = "torconfig/existing-auto-entry"          # the known single-call finding, seen again here
+    rec.seen("overlap_shapes", shape)
+    found = []
+
+    def report(clause, detail):
+        found.append(clause)
+        if len(found) == 1:
+            V(clause, cls, detail)
+
+    modes = []
+    for c in calls:
+        rclass, ri = classify_request(c["req"], infos0)
+        usable0 = [i for i in infos0 if i["kind"] == "usable"]
+        if rclass == "present" or (rclass == "none" and usable0):
+            modes.append("use")
+        elif rclass in ("absent", "absent-substring") or (rclass == "none" and not unset0 and
+                                                          not any(i["kind"] == "optional" for i in infos0)):
+            modes.append("add")
+        else:
+            modes.append("either")
+    wanted_new = [entry_info(c["req"]) for c in calls if c["req"] is not None]
+    # (1) every SETCONF Tor processed
+    applies = tor.conf.apply_log[amark:]
+    real_changes = 0
+    for n, ap in enumerate(applies):
+        rec.count("setconf_decoded")
+        rec.count("overlap_setconfs_judged")
+        keys = [k for (k, _v) in ap["items"]]
+        if any(k.lower() not in ("socksport", "__socksport") for k in keys):
+            report("setconf-touches-other-option", {"keys": keys})
+            continue
+        got = [v for (_k, v) in ap["items"]]
+        had = ap["before"]
+        hinfos = [entry_info(l) for l in had]
+        if any(v is None or v == "" for v in got):
+            report("setconf-relist-mismatch", {"n": n, "tor_had": had, "setconf_values": got})
+            continue
+        missing = _ms_sub(_ms_sub(had, got), [i["line"] for i in hinfos if i["kind"] == "zero"])
+        extra = _ms_sub(got, had)
+        if unset0 and not had and "9050" in extra and len(extra) == 2:
+            extra.remove("9050")
+        if not missing and not extra:
+            rec.count("overlap_noop_setconfs")
+            continue
+        real_changes += 1
+        ok_new = False
+        if len(extra) == 1:
+            new = entry_info(extra[0])
+            ok_new = any(new["target"] is not None and new["target"] == w["target"] and
+                         sorted(f.lower() for f in new["flags"]) == sorted(f.lower() for f in w["flags"])
+                         for w in wanted_new)
+            if not ok_new and any(c["req"] is None for c in calls):
+                ok_new = new["kind"] == "usable" and sockstor.valid_line(new["line"]) and \
+                    new["target"] not in [i["target"] for i in hinfos]
+        if missing or not ok_new:
+            report("setconf-relist-mismatch",
+                   {"shape": shape, "setconf_number": n + 1, "tor_had_when_it_processed_it": had, "setconf_values": got,
+                    "missing": missing, "unexpected": extra, "all_setconfs": [[v for (_k, v) in a["items"]] for a in applies]})
+    # (2) nothing else changed, nothing Tor started with was lost
+    rec.count("store_snapshots_compared")
+    if tor.conf.snapshot_others() != others0:
+        report("other-config-modified", {"before": others0, "after": tor.conf.snapshot_others()})
+    gone = _ms_sub([i["line"] for i in infos0 if i["kind"] != "zero"], E_final)
+    if gone:
+        report("listener-entry-changed-in-tor", {"before": E0, "after": E_final, "lost": gone})
+    # (3) no write at all when every call could be served
+    if all(m == "use" for m in modes):
+        rec.count("use_existing_checked")
+        if real_changes:
+            report("setconf-although-usable-entry-exists", {"E": E0, "calls": calls,
+                                                            "setconfs": [[v for (_k, v) in a["items"]] for a in applies]})
+    else:
+        rec.count("add_checked")
+    # (4) outcomes and endpoints
+    n_self = 0
+    for out, mode in zip(outs, modes):
+        c = out["call"]
+        rclass, ri = classify_request(c["req"], infos0)
+        o = out["o"]
+        failed = out["res"][0] == "raised" or (o is not None and o.fired and not o.ok)
+        if failed:
+            if mode == "use":
+                report("usable-entry-not-used", {"E": E0, "call": c,
+                                                 "outcome": repr(out["res"][1] if o is None else o.value)[:160]})
+            else:
+                rec.count("overlap_failed_calls_unjudged")
+            continue
+        if c["api"] in ("stream_via", "dns_resolve"):
+            n_self += 1
+            continue
+        if o is None or not o.fired:
+            rec.count("unresolved")
+            continue
+        ep = o.value
+        if not IStreamClientEndpoint.providedBy(ep):
+            report("result-is-not-an-endpoint", {"call": c, "got": type(ep).__name__})
+            continue
+        before = len(reactor.attempts)
+        _call(ep.connect, _ProbeFactory())
+        if len(reactor.attempts) != before + 1:
+            report("result-is-not-an-endpoint", {"call": c, "got": "no connect attempt"})
+            continue
+        T = tuple(reactor.attempts[-1])
+        del reactor.open[:]
+        rec.count("endpoint_targets_compared")
+        want = listeners if rclass == "none" else [h for h in listeners if h == attempt_of(ri["target"])]
+        if rclass == "ambiguous":
+            rec.count("overlap_ambiguous_unjudged")
+            continue
+        if T not in want:
+            report("endpoint-not-a-socks-listener",
+                   {"call": c, "endpoint_connects_to": T, "listeners_tor_has_at_the_end": listeners,
+                    "E_start": E0, "E_final": E_final,
+                    "setconfs": [[v for (_k, v) in a["items"]] for a in applies]})
+    for T in self_attempts:
+        rec.count("endpoint_targets_compared")
+        if tuple(T) not in listeners:
+            report("endpoint-not-a-socks-listener",
+                   {"call": "stream_via/dns_resolve", "endpoint_connects_to": T,
+                    "listeners_tor_has_at_the_end": listeners, "E_start": E0, "E_final": E_final,
+                    "setconfs": [[v for (_k, v) in a["items"]] for a in applies]})
+    if len(self_attempts) < n_self:
+        rec.count("unresolved", n_self - len(self_attempts))
+    if len(found) > 1:
+        rec.count("consequential_clauses_not_reported", len(found) - 1)
+    rec.count("overlap_histories_judged")
+    return True
+
+
 def run_case_A(case, rec):
     bad = []
 
@@ -612,6 +839,11 @@ def run_case_A(case, rec):
         bad.append(clause)
         rec.violation(clause, cls, detail, case)
 
+    if case.get("api") == "overlap":
+        judged = run_overlap(case, rec, V)
+        rec.case(case, nontrivial=bool(judged))
+        rec.seen("apis", "overlap")
+        return bad
     obs = run_steps(case)
     judged = False
     for nstep, step in enumerate(obs):
@@ -741,7 +973,43 @@ PRELUDES = [
 ]
 
 
-def cells_for(cfg, tier, idx):
+def overlap_cells(cfg, tier, idx, base, free):
+    """histories of 2-3 overlapping calls for one configuration"""
+    lines = (cfg["socks"] or []) + (cfg["under"] or [])
+    infos = [entry_info(l) for l in lines]
+    present = [i["first"] for i in infos if i["kind"] == "usable" and " " not in i["first"]]
+    P = present[0] if present else None
+    A, B, U = "9999", "9998", "unix:/tmp/second.sock"
+    combos = []
+    for api in ("cfg_create", "direct"):
+        combos += [[(api, A), (api, B)], [(api, A), (api, U)], [(api, A), (api, A)],
+                   [(api, A), (api, B), (api, A)], [(api, U), (api, A), (api, B)]]
+        if P:
+            combos += [[(api, A), (api, P)], [(api, P), (api, A)], [(api, A), (api, P), (api, B)], [(api, P), (api, P)]]
+    combos += [[("stream_via", None), ("stream_via", None)], [("stream_via", None), ("dns_resolve", None), ("stream_via", None)],
+               [("default", None), ("default", None)], [("direct", None), ("direct", None)],
+               [("cfg_create", A), ("stream_via", None)], [("stream_via", None), ("cfg_create", A)],
+               [("direct", A), ("stream_via", None)], [("cfg_create", A), ("direct", B)],
+               [("direct", None), ("direct", A)]]
+    if cfg["under"]:
+        # SocksPort unset + __SocksPort set: a concurrent TorConfig write lands between the two GETCONFs of the
+        # discovery and FakeTor's family semantics (our model) decide the answer: not judged, not generated
+        combos = [c for c in combos if len(set(a == "cfg_create" for (a, _r) in c)) == 1]
+    out = []
+    if tier == "quick" or idx % 2:
+        picks = [(idx * 5 + k * 7) % len(combos) for k in range(5)]
+        sel = [(combos[j], ("burst", "hold")[(idx + k) % 2]) for k, j in enumerate(picks)]
+    else:
+        sel = [(c, sch) for c in combos for sch in ("burst", "hold")]
+    for n, (combo, sch) in enumerate(sel):
+        c = dict(base, api="overlap", schedule=sch, free=free, calls=[{"api": a, "req": r} for (a, r) in combo])
+        if any(a == "cfg_create" for (a, _r) in combo) and (tier != "quick" or (idx + n) % 3 == 0):
+            out.append(dict(c, conf_changed=True))
+        out.append(c)
+    return out
+
+
+def cells_for(cfg, tier, idx, cidx=None):
     """all cases (dicts) for one configuration"""
     out = []
     base = {"w": "A", "socks": cfg["socks"], "under": cfg["under"]}
@@ -765,6 +1033,8 @@ def cells_for(cfg, tier, idx):
             out.append(dict(base, api=api, steps=[None, None] if (idx + j) % 4 == 0 else [None], free=free,
                             cfg_via="get_config" if (idx + j) % 2 else "ctor",
                             prelude={"kind": kind, "edit": edit, "value": value}))
+    # (selection by the configuration's own index, not the seed-shifted one: same shapes for every seed)
+    out.extend(overlap_cells(cfg, tier, idx if cidx is None else cidx, base, free))
     # histories of two calls
     out.append(dict(base, api="tor_default", steps=[None, None], free=free))
     out.append(dict(base, api="direct", steps=[None, None], free=free))
@@ -994,7 +1264,7 @@ def run_shard(spec, rec):
         for idx, cfg in enumerate(cfgs):
             if idx % spec["parts"] != spec["part"]:
                 continue
-            cells = cells_for(cfg, tier, idx + 7 * int(spec["seed"]))
+            cells = cells_for(cfg, tier, idx + 7 * int(spec["seed"]), cidx=idx)
             for c in cells:
                 run_case_A(c, rec)
                 total += 1
